@@ -261,6 +261,8 @@ func checkC03(c *Ctx) {
 	c.checkLoaderReadsLiveRows("C03.7-loader-reads-live-subscriptions")
 	// every changed mode is persisted (the write gate after a reload decides on the stored modes)
 	c.checkUpdateKeysIndependent()
+	// the modes the write gate reads are the ones the handler decided on (not a stale copy)
+	c.checkLocalCopyWrittenBack("C08.3c-local-copy-written-back", map[string]bool{"modeWant": true, "modeGiven": true, "deleted": true})
 }
 
 // recordFromMapParam: base is (an alloc holding / an extract of) a lookup in map field `m` keyed
